@@ -55,6 +55,12 @@ Step ==
             /\ cs' = Put(c, IF s.pend = "EOD" THEN [NoTxn EXCEPT !.pend = "none"] ELSE [s EXCEPT !.pend = "none"])
             /\ stats' = [stats EXCEPT !.commits = @ + (IF s.pend = "EOD" /\ Ev.cls = "ok" THEN 1 ELSE 0)]
             /\ UNCHANGED <<b, viol1, viols>>
+       [] Ev.ev = "panic" ->        \* a sender goroutine panicked inside the library
+            /\ viol1' = viol1 \cup {"C13_NoPanic"}
+            /\ UNCHANGED <<b, cs, commits, viols, stats>>
+       [] Ev.ev = "renderfail" ->   \* rendering a message into memory failed while other goroutines rendered theirs
+            /\ viol1' = viol1 \cup {"C13_ConcurrentRender"}
+            /\ UNCHANGED <<b, cs, commits, viols, stats>>
        [] Ev.ev = "hang" ->
             /\ viol1' = viol1 \cup {"C13_NoDeadlock"}
             /\ UNCHANGED <<b, cs, commits, viols, stats>>
